@@ -1705,7 +1705,7 @@ impl TypeLayout {
     pub fn supports_negate(&self) -> bool {
         let me = self.get_type_recursively();
         match me {
-            Self::Native(NativeType::Str(_) | NativeType::Byte) => false,
+            Self::Native(NativeType::Str(_) | NativeType::Byte | NativeType::Bool) => false,
             Self::Native(_) => true,
             _ => false,
         }
